@@ -23,6 +23,13 @@ func init() {
 			c.min("R-SORTEDSEARCH", 1)
 			c.ruleRoundRecompute()
 			c.min("R-RECOMPUTE", 6)
+			c.ruleWeightSub(map[string]bool{
+				// safe by invariant rather than by a guard, so reported as cross-references only:
+				"(*Round).update$2:sub#1": true, // totalWeight - threshold: threshold = n - floor((n-1)/3) <= n (R-THRESHCONV/B formula)
+				"(*Round).update$2:sub#3": true, // totalWeight - currentWeight: every voter's weight is added once (addVote)
+				"(*Round).update$2:sub#4": true, // currentPrecommits - Weight(node): Weight is a bit-count over a union of voter bitfields, subset of the voters seen
+				"(*Round).update$2:sub#5": true,
+			})
 			c.ruleAccum()
 		})
 }
